@@ -6,7 +6,7 @@
 //! unspecified in std, here it is insertion order.
 #![allow(clippy::all)]
 
-pub const CAP: usize = 6;
+pub const CAP: usize = 8;
 
 fn overflow() -> ! {
     #[cfg(kani)]
@@ -326,5 +326,61 @@ impl<'a, K: Ord, V> VacantEntry<'a, K, V> {
     }
     pub fn key(&self) -> &K {
         &self.key
+    }
+}
+
+
+/// HashMap with the same array-backed representation (needs K: Ord instead of Hash; iteration in key order)
+pub type HashMap<K, V> = BTreeMap<K, V>;
+
+/// Array-backed HashSet / BTreeSet
+#[derive(Clone, Debug)]
+pub struct HashSet<K> {
+    inner: BTreeMap<K, ()>,
+}
+pub type BTreeSet<K> = HashSet<K>;
+
+impl<K> Default for HashSet<K> {
+    fn default() -> Self {
+        HashSet { inner: BTreeMap::new() }
+    }
+}
+impl<K> HashSet<K> {
+    pub fn new() -> Self {
+        Self::default()
+    }
+    pub fn len(&self) -> usize {
+        self.inner.len()
+    }
+    pub fn is_empty(&self) -> bool {
+        self.inner.len() == 0
+    }
+}
+impl<K: Ord> HashSet<K> {
+    pub fn insert(&mut self, k: K) -> bool {
+        if self.inner.contains_key(&k) {
+            false
+        } else {
+            self.inner.insert(k, ());
+            true
+        }
+    }
+    pub fn contains(&self, k: &K) -> bool {
+        self.inner.contains_key(k)
+    }
+    pub fn remove(&mut self, k: &K) -> bool {
+        self.inner.remove(k).is_some()
+    }
+    pub fn iter(&self) -> Keys<'_, K, ()> {
+        self.inner.keys()
+    }
+}
+impl<K: Ord> FromIterator<K> for HashSet<K> {
+    fn from_iter<I: IntoIterator<Item = K>>(it: I) -> Self {
+        let mut s = HashSet::new();
+        for k in it {
+            s.insert(k);
+        }
+        s
     }
 }
